@@ -81,6 +81,63 @@ def decode_make_case(data):
     return {'fn': fn, 'content': enc_content(content), 'kw': kw}
 
 
+SEQ_ENCODINGS = (None, 'utf-8', 'shift_jis', 'utf-16-be', 'iso-8859-15', 'latin1', 'cp1252')
+SEQ_MODES = (None, 'byte', 'numeric', 'alphanumeric', 'kanji', 'hanzi')
+
+
+def decode_sequence_case(data):
+    """make_sequence cases: content = payload repeated 1..40 times, so that lengths of many symbols are reachable
+    from short inputs; version and / or symbol_count, level, mask, boost_error, encoding, mode."""
+    data = bytes(data)
+    if len(data) < HEADER:
+        data = data + bytes(HEADER - len(data))
+    h, payload = data[:HEADER], data[HEADER:HEADER + 120]
+    kind = h[0] % 7
+    rep = 1 + h[1] % 40
+    if kind == 0:
+        content = payload.decode('latin-1') * rep
+    elif kind == 1:
+        content = payload * rep
+    elif kind == 2:
+        digits = (''.join(str(b % 10) for b in payload) * rep)[:4000].lstrip('0') or '0'
+        content = int(digits) if h[1] & 0x80 else digits
+    elif kind == 3:
+        content = payload.decode('utf-8', 'ignore') * rep
+    elif kind == 4:
+        content = payload.decode('shift_jis', 'ignore') * rep
+    elif kind == 5:
+        content = payload.decode('gb2312', 'ignore') * rep
+    else:
+        content = ''.join(R.ALNUM[b % 45] for b in payload) * rep
+    kw = {}
+    v = h[2] % 64
+    if 1 <= v <= 40:
+        kw['version'] = v
+    c = h[3] % 32
+    if c >= 16:
+        kw['symbol_count'] = c - 15
+    for name, b, pool in (('error', h[4], ('L', 'M', 'Q', 'H', 'l', 'q')), ('mask', h[5], (0, 1, 2, 3, 4, 5, 6, 7)), ('boost_error', h[6], (True, False)),
+                          ('encoding', h[7], SEQ_ENCODINGS), ('mode', h[8], SEQ_MODES)):
+        has, val = _opt(b, pool)
+        if has and val is not None:
+            kw[name] = val
+    if isinstance(content, bytes):
+        kw.pop('encoding', None)
+    return {'fn': 'make_sequence', 'content': enc_content(content), 'kw': kw}
+
+
+def seed_sequence_inputs():
+    out = []
+    for kind, payload in ((0, b'hello world'), (1, b'\x93\x5f\xe4\xaa'), (2, b'\x01\x02\x03\x04\x05'), (3, '\u00e4\u20ac\u70b9'.encode('utf-8')),
+                          (4, '\u70b9\u8317'.encode('shift_jis')), (5, '\u4e66\u8bfb'.encode('gb2312')), (6, bytes(range(30)))):
+        out.append(bytes([kind, 3, 1, 0, 0, 0, 0, 0, 0, 0]) + payload)
+        out.append(bytes([kind, 9, 0, 19, 0, 0, 0, 0, 0, 0]) + payload)
+    return out
+
+
+DECODERS = {'make': (decode_make_case, None), 'sequence': (decode_sequence_case, None)}
+
+
 def seed_inputs():
     """A few small valid inputs (one per content kind); half of the shards start from an empty corpus."""
     out = []
@@ -125,7 +182,7 @@ def shrink_make_case(mod, case, sig, budget=150):
     return best
 
 
-def fuzz_phase(modname, runs_total, name='coverage-guided'):
+def fuzz_phase(modname, runs_total, name='coverage-guided', decoder='make'):
     """Custom phase: one atheris process per shard (fresh corpus directory; odd shards get the seed inputs).
     libFuzzer's -seed pins a campaign only approximately; the reproducible unit is the saved case."""
     def fn(shard, nshards, seed, stats):
@@ -137,7 +194,7 @@ def fuzz_phase(modname, runs_total, name='coverage-guided'):
         corpus = os.path.join(work, 'corpus')
         os.makedirs(corpus)
         if shard % 2:
-            for i, data in enumerate(seed_inputs()):
+            for i, data in enumerate(seed_inputs() if decoder == 'make' else seed_sequence_inputs()):
                 with open(os.path.join(corpus, 'seed%02d' % i), 'wb') as f:
                     f.write(data)
         result = os.path.join(work, 'result.pickle')
@@ -145,7 +202,7 @@ def fuzz_phase(modname, runs_total, name='coverage-guided'):
         env = dict(os.environ)
         deps = os.path.join(runner.ROOT, '.deps')
         env['PYTHONPATH'] = os.pathsep.join([os.environ.get('VERIF_REPO', '/repo'), runner.ROOT, deps])
-        cmd = [sys.executable, '-m', 'vlib.fuzz_target', modname, result, str(runs), '-seed=%d' % (seed * 1000 + shard + 1),
+        cmd = [sys.executable, '-m', 'vlib.fuzz_target', modname + ':' + decoder, result, str(runs), '-seed=%d' % (seed * 1000 + shard + 1),
                '-max_len=%d' % MAX_LEN, '-len_control=0', '-use_value_profile=1', '-timeout=300', '-rss_limit_mb=4096', '-print_final_stats=1', corpus]
         try:
             with open(log, 'wb') as lf:
